@@ -380,5 +380,137 @@ func main() {
 				e.Strs("indexCacheReleaseConds", conds(ic, fd.Body), "IndexCache.Release: conditions (none expected: every call is unconditional)")
 			})
 		}
-	}, "cache/cache.go", "cache/cleaner.go", "fracmanager/cache_maintainer.go", "frac/sealed_index_cache.go")
+		// ---- support code: the loader of the doc-block cache, and the split of the configured cache size
+		if dr, err := r.Load("disk/doc_blocks_reader.go"); err != nil {
+			e.Missing("doc_blocks_reader.go", err)
+		} else {
+			fn(dr, "DocBlocksReader", "ReadDocBlockPayload", "loaderReturns", func(fd *ast.FuncDecl) {
+				var rets, defs []string
+				payloadCalls := 0
+				ast.Inspect(fd.Body, func(x ast.Node) bool {
+					switch v := x.(type) {
+					case *ast.ReturnStmt:
+						rets = append(rets, dr.Render(v))
+					case *ast.AssignStmt:
+						if len(v.Lhs) > 0 && dr.Render(v.Lhs[0]) == "dst" {
+							defs = append(defs, dr.Render(v))
+						}
+					case *ast.CallExpr:
+						if strings.HasSuffix(dr.Render(v.Fun), ".Payload") {
+							payloadCalls++
+						}
+					}
+					return true
+				})
+				e.Strs("loaderReturns", rets, "DocBlocksReader.ReadDocBlockPayload: every return statement")
+				e.Strs("loaderDst", defs, "DocBlocksReader.ReadDocBlockPayload: where the returned buffer comes from")
+				e.Nat("loaderPayloadCalls", uint64(payloadCalls), "DocBlocksReader.ReadDocBlockPayload: direct uses of the pooled block's Payload()")
+			})
+		}
+		if db, err := r.Load("disk/doc_block.go"); err != nil {
+			e.Missing("doc_block.go", err)
+		} else {
+			fn(db, "DocBlock", "DecompressTo", "decompressToNoCodec", func(fd *ast.FuncDecl) {
+				var res []string
+				ast.Inspect(fd.Body, func(x ast.Node) bool {
+					if is, ok := x.(*ast.IfStmt); ok && strings.Contains(db.Render(is.Cond), "CodecNo") {
+						res = append(res, "if "+db.Render(is.Cond))
+						for _, st := range is.Body.List {
+							res = append(res, db.Render(st))
+						}
+					}
+					return true
+				})
+				e.Strs("decompressToNoCodec", res, "DocBlock.DecompressTo: the uncompressed case copies the payload into dst")
+			})
+		}
+		if cf, err := r.Load("fracmanager/config.go"); err != nil {
+			e.Missing("config.go", err)
+		} else {
+			fn(cf, "", "FillConfigWithDefault", "sortCacheDefault", func(fd *ast.FuncDecl) {
+				var res []string
+				ast.Inspect(fd.Body, func(x ast.Node) bool {
+					is, ok := x.(*ast.IfStmt)
+					if !ok || cf.Render(is.Cond) != "config.SortCacheSize == 0" {
+						return true
+					}
+					ast.Inspect(is, func(y ast.Node) bool {
+						switch v := y.(type) {
+						case *ast.IfStmt:
+							res = append(res, "if "+cf.Render(v.Cond))
+						case *ast.AssignStmt:
+							res = append(res, cf.Render(v))
+						case *ast.ValueSpec:
+							res = append(res, "const "+cf.Render(v))
+						case *ast.CallExpr:
+							if strings.HasSuffix(cf.Render(v.Fun), "Fatal") {
+								res = append(res, "Fatal")
+							}
+						}
+						return true
+					})
+					return false
+				})
+				// constants / helper values declared before the statement
+				var pre []string
+				for _, st := range fd.Body.List {
+					switch v := st.(type) {
+					case *ast.DeclStmt:
+						if gd, ok := v.Decl.(*ast.GenDecl); ok {
+							for _, sp := range gd.Specs {
+								if t := cf.Render(sp); strings.Contains(t, "SdocsCacheSize") {
+									pre = append(pre, "const "+t)
+								}
+							}
+						}
+					case *ast.AssignStmt:
+						if t := cf.Render(v); strings.Contains(t, "SortCacheSize") && !strings.HasPrefix(t, "config.") {
+							pre = append(pre, t)
+						}
+					}
+				}
+				res = append(pre, res...)
+				e.Strs("sortCacheDefault", res, "FillConfigWithDefault: the whole SortCacheSize statement (constants, conditions, assignments, Fatal)")
+				asIs := []string{"if config.SortCacheSize == 0", "const SdocsCacheSizeMultiplier = 8", "const SdocsCacheSizeMaxRatio = 0.8", "config.SortCacheSize = config.FracSize * SdocsCacheSizeMultiplier", "if config.SortCacheSize > config.CacheSize", "config.SortCacheSize = uint64(float64(config.CacheSize) * 0.8)", "if config.SortCacheSize > config.CacheSize", "Fatal"}
+				capped := []string{"const SdocsCacheSizeMultiplier = 8", "const SdocsCacheSizeMaxRatio = 0.8", "maxSortCacheSize := uint64(float64(config.CacheSize) * SdocsCacheSizeMaxRatio)", "if config.SortCacheSize == 0", "config.SortCacheSize = min(config.FracSize*SdocsCacheSizeMultiplier, maxSortCacheSize)", "if config.SortCacheSize > maxSortCacheSize", "Fatal"}
+				switch strings.Join(res, "|") {
+				case strings.Join(asIs, "|"):
+					e.Bool("sortCacheCapped", false, "the sort cache is capped by the whole CacheSize (default: 80% only when 8 fractions exceed the cache)")
+				case strings.Join(capped, "|"):
+					e.Bool("sortCacheCapped", true, "default and explicit sort cache size are capped at SdocsCacheSizeMaxRatio = 0.8 of CacheSize")
+				default:
+					e.Missing("sortCacheShape", "FillConfigWithDefault's SortCacheSize statement has neither of the two known shapes")
+					e.Bool("sortCacheCapped", false, "UNKNOWN SHAPE (see above): the drivers fall back to the uncapped rule, c18_x_budget fails")
+				}
+			})
+		}
+		if cm, err := r.Load("fracmanager/cache_maintainer.go"); err == nil {
+			fn(cm, "", "cleanerConfig", "layerWeights", func(fd *ast.FuncDecl) {
+				var ws []string
+				ast.Inspect(fd.Body, func(x ast.Node) bool {
+					if cl, ok := x.(*ast.CompositeLit); ok && cl.Type == nil {
+						item := ""
+						for _, el := range cl.Elts {
+							if kv, ok := el.(*ast.KeyValueExpr); ok {
+								k := cm.Render(kv.Key)
+								if k == "weight" || k == "sizeLimit" {
+									item += k + "=" + cm.Render(kv.Value)
+								}
+							}
+						}
+						if item != "" {
+							ws = append(ws, item)
+						}
+					}
+					return true
+				})
+				e.Strs("layerWeights", ws, "cleanerConfig: weight / fixed size of every cleaner, in order")
+			})
+			fn(cm, "", "createCleaners", "createCleanersArith", func(fd *ast.FuncDecl) {
+				e.Strs("createCleanersArith", events(cm, fd.Body, func(s string) bool {
+					return strings.HasPrefix(s, "s :=") || strings.HasPrefix(s, "s -=") || strings.HasPrefix(s, "sizeLimit =") || strings.HasPrefix(s, "totalWeights +=")
+				}), "createCleaners: the arithmetic of the split")
+			})
+		}
+	}, "cache/cache.go", "cache/cleaner.go", "fracmanager/cache_maintainer.go", "frac/sealed_index_cache.go", "disk/doc_blocks_reader.go", "disk/doc_block.go", "fracmanager/config.go")
 }
